@@ -16,6 +16,8 @@
 (*            Variant = "design"             intended behaviour                                    *)
 (*            Variant = "impl_D8"            cigarstring dereferenced before the unmapped test     *)
 (*            Variant = "impl_blacklist_end" exclusive reference_end compared as if it were a base *)
+(*            Variant = "impl_mate_strict"   --r1only / --r2only written as `not is_read1` / `not is_read2`: single-end    *)
+(*                                           records are dropped (seeded change C11-r5m2)                               *)
 (*            Variant = "impl_splitkey"      single+split feature key `(f)` is a str, not a tuple  *)
 (*            Variant = "impl_strayindex"    stray `joined_feature[0]` after the split product     *)
 (*            (each as-coded deviation is a negative control of its own)                           *)
@@ -62,7 +64,11 @@ PassMP(r, o)       == o.filterMP => r.mp = "unique"
 
 (* mate selection: a mate flagged as the other one is never counted; an unflagged (single-end) record
    under --r1only/--r2only is not decided by the statement (MateUndecided) *)
-PassMateStrict(r, o)  == (o.r1only => r.mate = 1) /\ (o.r2only => r.mate = 2)
+(* r.mate: 0 = neither mate flag (single-end), 1 = read 1, 2 = read 2, 3 = both flags (legal SAM: inner segment).
+   Selecting a mate excludes the OTHER mate: a single-end record passes; a record carrying both flags is undecided *)
+IsRead1(r) == r.mate \in {1, 3}
+IsRead2(r) == r.mate \in {2, 3}
+PassMateStrict(r, o)  == (o.r1only => r.mate \in {0, 1}) /\ (o.r2only => r.mate \in {0, 2})
 PassMateLenient(r, o) == (o.r1only => r.mate # 2) /\ (o.r2only => r.mate # 1)
 
 (* blacklist, BED intervals half open [start,end): a read none of whose bases lies in an interval must pass;
@@ -208,8 +214,8 @@ BlacklistedD(r, o) ==
         IN r.contig = iv.contig /\ (   (r.start >= iv.start /\ r.start < iv["end"])
                                     \/ (e >= iv.start /\ e < iv["end"]))
 FilterD(r, o) ==
-    IF o.r1only /\ r.mate = 2 THEN "skip"
-    ELSE IF o.r2only /\ r.mate = 1 THEN "skip"
+    IF o.r1only /\ (IF Variant = "impl_mate_strict" THEN ~IsRead1(r) ELSE IsRead2(r)) THEN "skip"      \* read.is_read2
+    ELSE IF o.r2only /\ (IF Variant = "impl_mate_strict" THEN ~IsRead2(r) ELSE IsRead1(r)) THEN "skip"
     ELSE IF o.filterMP /\ r.mp # "unique" THEN "skip"
     ELSE IF r.qcfail THEN "skip"
     ELSE IF r.mapq < o.minMQ THEN "skip"
@@ -318,7 +324,7 @@ ReadDeviations ==
       <<"xa", <<"alt">> >>, <<"xa", <<"nonalt">> >>, <<"xa", <<"alt", "nonalt", "alt">> >>,
       <<"nh", 1>>, <<"nh", 2>>, <<"nh", 4>>,
       <<"mp", "unique">>, <<"mp", "multi">>,
-      <<"pair", 1>>, <<"pair", 2>>, <<"pair", 3>>, <<"pair", 4>>, <<"mate", 1>>,
+      <<"pair", 1>>, <<"pair", 2>>, <<"pair", 3>>, <<"pair", 4>>, <<"mate", 1>>, <<"mate", 3>>,
       <<"iv", <<14, 20>> >>, <<"iv", <<15, 25>> >>, <<"iv", <<20, 30>> >>, <<"iv", <<29, 35>> >>,
       <<"iv", <<30, 36>> >>, <<"iv", <<16, 40>> >>, <<"iv", <<25, 30>> >>,
       <<"contig", "c2">>, <<"contig", "">>, <<"sample", "s2">>,
